@@ -217,8 +217,8 @@ CLAIMED = {
  "C16": {
   "technique": "Lean 4 proof (the scanner's schema accepts encoding/json's output for every well-formed model type - structs at any depth included - and every null-free value; excluded points proved) + scanned definitions vs marshalled values of the same compiled types",
   "text": ("Proof on the modelled fragment, partial: `schemaOf` models schemaBuilder.buildFromType / buildFromStruct, `encode` models encoding/json (typed: nil pointers / slices / maps -> null, omitempty, "
-           "the ,string option, []byte -> base64 string, time.Time -> string), `accepts` is strict draft-4 acceptance of the structural part of a schema. conforms_containers: for EVERY type built from basic "
-           "kinds, time.Time, []byte, interface{}, pointers, slices, arrays and string-keyed maps in any nesting and EVERY value whose encoding contains no JSON null, the scanned schema accepts the encoding. "
+           "the ,string option, []byte -> base64 string, time.Time and every encoding.TextMarshaler type -> string, also behind pointers), `accepts` is strict draft-4 acceptance of the structural part of a schema. conforms_containers: for EVERY type built from basic "
+           "kinds, time.Time, text-marshalling types, []byte, interface{}, pointers, slices, arrays and string-keyed maps in any nesting and EVERY value whose encoding contains no JSON null, the scanned schema accepts the encoding. "
            "conforms: the same for EVERY well-formed type including structs at any depth (distinct json names, ,string only where encoding/json honours it; rename, omitempty, quoting). "
            "The excluded points are proved real: nil_pointer_rejected, nil_slice_rejected (known finding), string_option_mismatch. "
            "Tie: packages of annotated model structs with random field types and json tags (plus embedded helper structs) are scanned with codescan and compiled into a program that fills values by reflection and "
